@@ -55,3 +55,9 @@ TreeRun.vos TreeRun.vok TreeRun.required_vos: TreeRun.v TreeColl.vos FlatRun.vos
 TreeFacts.vo TreeFacts.glob TreeFacts.v.beautified TreeFacts.required_vo: TreeFacts.v Bytes.vo BytesFacts.vo Segment.vo SegmentFacts.vo Stack.vo StackFacts.vo Collection.vo CollectionFacts.vo Store.vo StoreFacts.vo Tree.vo TreeColl.vo
 TreeFacts.vio: TreeFacts.v Bytes.vio BytesFacts.vio Segment.vio SegmentFacts.vio Stack.vio StackFacts.vio Collection.vio CollectionFacts.vio Store.vio StoreFacts.vio Tree.vio TreeColl.vio
 TreeFacts.vos TreeFacts.vok TreeFacts.required_vos: TreeFacts.v Bytes.vos BytesFacts.vos Segment.vos SegmentFacts.vos Stack.vos StackFacts.vos Collection.vos CollectionFacts.vos Store.vos StoreFacts.vos Tree.vos TreeColl.vos
+Index.vo Index.glob Index.v.beautified Index.required_vo: Index.v Bytes.vo
+Index.vio: Index.v Bytes.vio
+Index.vos Index.vok Index.required_vos: Index.v Bytes.vos
+IndexFacts.vo IndexFacts.glob IndexFacts.v.beautified IndexFacts.required_vo: IndexFacts.v Bytes.vo BytesFacts.vo Segment.vo SegmentFacts.vo Index.vo
+IndexFacts.vio: IndexFacts.v Bytes.vio BytesFacts.vio Segment.vio SegmentFacts.vio Index.vio
+IndexFacts.vos IndexFacts.vok IndexFacts.required_vos: IndexFacts.v Bytes.vos BytesFacts.vos Segment.vos SegmentFacts.vos Index.vos
